@@ -33,7 +33,7 @@ fn main() {
     let _corpus = arg(&args, "--corpus");
     let thorough = args.iter().any(|a| a == "--thorough");
     // panics are caught per case by the property modules; keep the default hook quiet
-    std::panic::set_hook(Box::new(|_| {}));
+    if std::env::var("VERIF_PANIC_TRACE").is_err() { std::panic::set_hook(Box::new(|_| {})); }
     let corpus = _corpus.as_deref();
     let cases = match prop.as_str() {
         "C01" => props::c01::generate(seed, n, thorough, corpus),
